@@ -259,8 +259,16 @@ func (g *Gen) Next(parent *Blk, st *State) *Draft {
 
 	empty := r.Float64() < g.Opt.EmptyProb
 	if !empty {
-		// declarations
+		// declarations: mostly one per declaring block, sometimes several (several class-trie
+		// leaves written by one block), of either kind
+		nDecl := 0
 		if !g.Opt.NoClasses && r.IntN(4) == 0 {
+			nDecl = 1
+			if r.IntN(3) == 0 {
+				nDecl += 1 + r.IntN(3)
+			}
+		}
+		for d := 0; d < nDecl; d++ {
 			if r.IntN(2) == 0 {
 				var h felt.Felt
 				var c core.ClassDefinition
@@ -269,6 +277,9 @@ func (g *Gen) Next(parent *Blk, st *State) *Draft {
 				} else {
 					h, c = g.cairo0Class()
 					g.madeV0 = append(g.madeV0, madeClass{h, c})
+				}
+				if _, dup := classes[h]; dup {
+					continue
 				}
 				classes[h] = c
 				sd.DeclaredV0Classes = append(sd.DeclaredV0Classes, &h)
@@ -282,6 +293,9 @@ func (g *Gen) Next(parent *Blk, st *State) *Draft {
 					h, c = g.sierraClass()
 					g.madeV1 = append(g.madeV1, madeClass{h, c})
 				}
+				if _, dup := classes[h]; dup {
+					continue
+				}
 				classes[h] = c
 				var casm felt.Felt
 				if VersionAtLeast(ver, "0.14.1") {
@@ -293,13 +307,20 @@ func (g *Gen) Next(parent *Blk, st *State) *Draft {
 				addTx(g.declareTx(&h, &casm, 2+uint64(r.IntN(2))))
 			}
 		}
-		// CASM hash migration (>= 0.14.1): a class declared with a V1 hash gets its V2 hash
+		// CASM hash migration (>= 0.14.1): classes declared with a V1 hash get their V2 hash
+		// (one per migrating block, sometimes several)
 		if !g.Opt.NoMigration && VersionAtLeast(ver, "0.14.1") && r.IntN(3) == 0 {
+			nMig := 1
+			if r.IntN(3) == 0 {
+				nMig += 1 + r.IntN(2)
+			}
 			for _, h := range sortedHashes(st.Classes) { // map order would make the chain depend on more than the seed
 				ci := st.Classes[h]
 				if ci.Sierra && ci.CasmV1 != nil && ci.MigratedAt == nil && ci.CasmV2 != nil {
 					sd.MigratedClasses[felt.SierraClassHash(h)] = felt.CasmClassHash(*ci.CasmV2)
-					break
+					if nMig--; nMig == 0 {
+						break
+					}
 				}
 			}
 		}
